@@ -12,7 +12,7 @@ unset GOOS GOARCH
 BIN="$HERE/bin/verifcheck"
 need_build=0
 if [ ! -x "$BIN" ]; then need_build=1; else
-  for f in "$HERE"/checker/*.go "$HERE"/checker/go.mod; do
+  for f in "$HERE"/checker/*.go "$HERE"/checker/*.txt "$HERE"/checker/go.mod; do
     if [ "$f" -nt "$BIN" ]; then need_build=1; break; fi
   done
 fi
